@@ -228,11 +228,16 @@ def fallback_scenarios(ctx, tag):
     return out
 
 
-def run_lines_resilient(exe, lines, env=None, timeout=1500):
-    """Returns one (kind, text, stderr) per line; kind in ok/FAIL/DEADLOCK/CRASH/bad-op."""
+def run_lines_resilient(exe, lines, env=None, timeout=1500, max_deaths=4):
+    """Returns one (kind, text, stderr) per line; kind in ok/FAIL/DEADLOCK/CRASH/bad-op. After `max_deaths` process deaths
+    (crash / deadlock verdict / watchdog) the remaining lines are not run (None): the property is already refuted and every
+    further hang would cost a full watchdog period."""
     results = [None] * len(lines)
     start = 0
+    deaths = 0
     while start < len(lines):
+        if deaths >= max_deaths:
+            break
         rc, out, err = vlib.run_lines([exe], lines[start:], timeout=timeout, env=env)
         answers = [o for o in out if o.startswith(("ok ", "FAIL ", "DEADLOCK ")) or o == "bad-op"]
         k = 0
@@ -246,6 +251,7 @@ def run_lines_resilient(exe, lines, env=None, timeout=1500):
             if rc != 0 and results[-1][0] == "ok":      # report at process end (LeakSanitizer, TSan exit code)
                 results[-1] = ("CRASH", "rc=%d at process end" % rc, err)
             break
+        deaths += 1
         if k > 0 and results[start + k - 1][0] == "DEADLOCK":   # the watchdog answered for that line and exited
             start += k
             continue
@@ -438,9 +444,11 @@ def run_batch(ctx, exe, scen, variant, env=None, label=""):
             results[i] = r
     bad = 0
     agg = {}
+    skipped = 0
     for (line, info), r in zip(scen, results):
         if r is None:
-            r = ("CRASH", "no result", "")
+            skipped += 1
+            continue
         ok = classify_and_report(ctx, line, info, r, variant, exe)
         nontrivial = any(s["n"] > 0 for s in info["streams"])
         sample = None
@@ -469,7 +477,10 @@ def run_batch(ctx, exe, scen, variant, env=None, label=""):
                 ctx.count("action:" + {"r": "RUN", "f": "FULL_FLUSH", "b": "FULL_BARRIER", "F": "FINISH"}[a])
             if s["abort"] >= 0:
                 ctx.count("abandoned-stream")
-    ctx.log("%s: %d scenarios on %s/%s in %.1fs, %d not ok" % (label, len(lines), variant, os.path.basename(exe), time.time() - t, bad))
+    if skipped:
+        ctx.count("skipped-after-repeated-process-deaths", skipped)
+    ctx.log("%s: %d scenarios on %s/%s in %.1fs, %d not ok%s" % (label, len(lines), variant, os.path.basename(exe), time.time() - t, bad,
+                                                               (", %d not run after repeated process deaths" % skipped) if skipped else ""))
     return agg, bad
 
 
@@ -563,8 +574,10 @@ def trace_inclusion(ctx, exe_s, env):
     traces, owners = [], []
     for idx, rp in zip(parts, res_parts):
         for i, r in zip(idx, rp):
-            if r is None or r[0] != "ok":
-                classify_and_report(ctx, lines[i], scen[i][1], r or ("CRASH", "no result", ""), "asan", exe_s)
+            if r is None:
+                continue
+            if r[0] != "ok":
+                classify_and_report(ctx, lines[i], scen[i][1], r, "asan", exe_s)
                 continue
             m = re.search(r" trace=(\S+)", r[1])
             if not m:
